@@ -438,6 +438,15 @@ Proof.
     simpl; repeat apply recpos_preserves; exact HI.
 Qed.
 
+Lemma textread_unchanged st n : fst (textread_stmt st n) = st.
+Proof.
+  unfold textread_stmt. repeat (match goal with |- context [if ?c then _ else _] => destruct c end); try reflexivity.
+  destruct (find n (st_files st)) as [this|]; [|reflexivity].
+  destruct (lp_mode this); try reflexivity. destruct (try_access (st_files st) n false); reflexivity.
+Qed.
+Lemma textread_preserves st n : Inv (st_files st) -> Inv (st_files (fst (textread_stmt st n))).
+Proof. rewrite textread_unchanged. auto. Qed.
+
 Lemma step_preserves st o : Inv (st_files st) -> Inv (st_files (fst (step st o))).
 Proof.
   destruct o; simpl.
@@ -447,6 +456,7 @@ Proof.
   - apply lock_preserves.
   - apply getput_preserves.
   - apply getput_preserves.
+  - apply textread_preserves.
 Qed.
 
 Lemma Inv_init : Inv (st_files init).
@@ -685,7 +695,8 @@ Qed.
 
 Lemma access_stored_step st o : access_stored (st_files st) -> access_stored (st_files (fst (step st o))).
 Proof.
-  intro HI. destruct o as [nm n m a lt reclen|n|n so eo|n so eo|n pos|n pos]; simpl.
+  intro HI. destruct o as [nm n m a lt reclen|n|n so eo|n so eo|n pos|n pos|n]; simpl;
+    [| | | | | |rewrite textread_unchanged; exact HI].
   - unfold open_stmt.
     next_if; [exact HI|]. next_if; [exact HI|]. next_if; [exact HI|]. next_if; [exact HI|].
     next_if; [exact HI|]. next_if; [exact HI|]. next_if; [exact HI|].
@@ -747,4 +758,132 @@ Proof.
     { apply forallb_forall. intros [k e] Hin. apply list_open_In in Hin as [Hin Hnm]. simpl.
       rewrite (open_conflict_spec _ _ _ _ (Hst k e Hin)). rewrite negb_involutive. apply (H k e Hin Hnm). }
     congruence.
+Qed.
+
+(* ------------------------------------------------------------------------------------------------
+   10. sequential-mode file numbers lock the whole file; OPEN-time LOCK clauses; mutual exclusion *)
+
+(* LOCK / UNLOCK through a number open FOR INPUT / OUTPUT / APPEND: the bounds (once they pass the limit check)
+   are ignored - the statement is the whole-file statement *)
+Theorem text_lock_ignores_bounds u st n so eo this r :
+  find n (st_files st) = Some this -> lp_mode this <> MR -> lock_limits so eo = Ok r ->
+  lock_stmt u st n so eo = lock_stmt u st n None None.
+Proof.
+  intros Hf Hm Hl. unfold lock_stmt. rewrite Hf, Hl. cbn [lock_limits].
+  assert (He : forall x, effective_range this x = None) by (intro x; unfold effective_range; destruct (lp_mode this); congruence).
+  rewrite !He. reflexivity.
+Qed.
+
+(* a whole-file lock (also every lock taken through a sequential-mode number) excludes every request *)
+Theorem whole_file_lock_excludes_requests fs n this m r0 :
+  find n fs = Some this -> held fs (lp_name this) m None ->
+  acquire_record_lock fs n r0 = Err locks_err_PERMISSION_DENIED.
+Proof.
+  intros Hf Hh. unfold acquire_record_lock, try_record_lock. rewrite Hf.
+  pose proof (consulted_all fs (lp_name this) n m None Hh) as Hc.
+  destruct r0 as [[s e]|].
+  - assert (Hx : existsb (held_conflict s e) (consulted fs (lp_name this) n false false) = true)
+      by (apply existsb_exists; exists None; split; [assumption | reflexivity]).
+    rewrite Hx. reflexivity.
+  - destruct (consulted fs (lp_name this) n false false); [destruct Hc | reflexivity].
+Qed.
+
+(* UNLOCK through a sequential-mode number succeeds iff that number holds the whole-file lock, whatever bounds *)
+Theorem text_unlock_matches_any_bounds st n so eo this r :
+  0 < n <= 255 -> find n (st_files st) = Some this -> lp_mode this <> MR -> lock_limits so eo = Ok r ->
+  (In None (lp_set this) -> snd (lock_stmt true st n so eo) = Ok tt) /\
+  (~ In None (lp_set this) -> lock_stmt true st n so eo = (st, Err locks_err_PERMISSION_DENIED)).
+Proof.
+  intros Hn Hf Hm Hl.
+  assert (He : effective_range this r = None) by (unfold effective_range; destruct (lp_mode this); congruence).
+  destruct (unlock_exact st n so eo this r Hn Hf Hl) as [A B]. cbv zeta in A, B. rewrite He in A, B.
+  split; [intro H; exact (proj1 (A H)) | exact B].
+Qed.
+
+(* the LOCK READ / LOCK WRITE clause another number gave at OPEN forbids the access: Path/file access error,
+   whatever record, locked or not; only the record pointer moves *)
+Lemma try_access_other_clause fs n this w m e2 :
+  n <> 0 -> find n fs = Some this -> In (m, e2) fs -> m <> n -> lp_name e2 = lp_name this ->
+  other_lock_denies (lp_lock e2) w = true ->
+  try_access fs n w = Err locks_err_PATH_FILE_ACCESS_ERROR.
+Proof.
+  intros Hn Hf Hin Hne Hnm Hd. unfold try_access. replace (n =? 0) with false by lia. rewrite Hf.
+  destruct (own_denied (lp_access this) w); [reflexivity|].
+  assert (Hx : existsb (fun ke => other_lock_denies (lp_lock (snd ke)) w) (list_open fs (lp_name this) (Some n)) = true).
+  { apply existsb_exists. exists (m, e2). split; [|exact Hd]. unfold list_open. apply filter_In. split; [exact Hin|].
+    simpl. rewrite Hnm, Z.eqb_refl. simpl. apply negb_true_iff. apply Z.eqb_neq. exact Hne. }
+  rewrite Hx. reflexivity.
+Qed.
+
+Theorem open_clause_forbids_getput put st n pos this p m e2 :
+  0 < n <= 255 -> find n (st_files st) = Some this -> lp_mode this = MR -> check_pos pos = Ok p ->
+  In (m, e2) (st_files st) -> m <> n -> lp_name e2 = lp_name this ->
+  other_lock_denies (lp_lock e2) put = true ->
+  snd (getput_stmt put st n pos) = Err locks_err_PATH_FILE_ACCESS_ERROR.
+Proof.
+  intros Hn Hf Hm Hp Hin Hne Hnm Hd. unfold getput_stmt.
+  replace ((n <? 0) || (255 <? n)) with false by lia. replace (n <? 1) with false by lia.
+  rewrite Hf, Hm, Hp. simpl negb. cbv iota. cbv zeta.
+  set (recpos := match p with Some x => rf_setpos_recpos x | None => lp_recpos this end).
+  set (fs1 := update n (with_recpos recpos) (st_files st)).
+  assert (Hf1 : find n fs1 = Some (with_recpos recpos this)) by (apply find_update_same; assumption).
+  assert (Hin1 : In (m, e2) fs1).
+  { apply update_In. exists e2. split; [assumption|]. replace (m =? n) with false by lia. reflexivity. }
+  unfold try_record_access.
+  rewrite (try_access_other_clause fs1 n (with_recpos recpos this) put m e2); try assumption; try lia.
+  reflexivity.
+Qed.
+
+Theorem open_clause_forbids_textread st n this m e2 :
+  0 < n <= 255 -> find n (st_files st) = Some this -> lp_mode this = MI ->
+  In (m, e2) (st_files st) -> m <> n -> lp_name e2 = lp_name this ->
+  other_lock_denies (lp_lock e2) false = true ->
+  textread_stmt st n = (st, Err locks_err_PATH_FILE_ACCESS_ERROR).
+Proof.
+  intros Hn Hf Hm Hin Hne Hnm Hd. unfold textread_stmt.
+  replace ((n <? 0) || (255 <? n)) with false by lia. replace (n <? 1) with false by lia.
+  rewrite Hf, Hm. rewrite (try_access_other_clause (st_files st) n this false m e2); try assumption; try lia.
+  reflexivity.
+Qed.
+
+(* which clauses forbid what *)
+Lemma other_lock_denies_table :
+  other_lock_denies LR false = true /\ other_lock_denies LRW false = true /\ other_lock_denies LW true = true /\
+  other_lock_denies LRW true = true /\ other_lock_denies LR true = false /\ other_lock_denies LW false = false /\
+  (forall w, other_lock_denies LNone w = false) /\ (forall w, other_lock_denies LShared w = false).
+Proof. repeat split; intros []; reflexivity. Qed.
+
+(* MUTUAL EXCLUSION over every history: whenever a number holds a lock containing record k of a name,
+   (1) it is the only held lock on that name containing k (any number, also its own), and
+   (2) GET / PUT of record k through every other number fails (GET is let through only while the holder has the
+       file open for OUTPUT/APPEND), and (3) a new LOCK request containing k is refused through every number *)
+Theorem mutual_exclusion ops nm n1 e1 r1 k :
+  let st := run init ops in let fs := st_files st in
+  In (n1, e1) fs -> lp_name e1 = nm -> In r1 (lp_set e1) -> in_range k r1 ->
+  (forall n2 e2 r2, In (n2, e2) fs -> lp_name e2 = nm -> In r2 (lp_set e2) -> in_range k r2 -> n2 = n1 /\ r2 = r1) /\
+  (forall put n2 this pos p, 0 < n2 <= 255 -> n2 <> n1 -> find n2 fs = Some this -> lp_name this = nm ->
+     lp_mode this = MR -> check_pos pos = Ok p -> accessed_record this p = k ->
+     (is_oa (lp_mode e1) && negb put) = false ->
+     snd (getput_stmt put st n2 pos) = Err locks_err_PERMISSION_DENIED \/
+     snd (getput_stmt put st n2 pos) = Err locks_err_PATH_FILE_ACCESS_ERROR) /\
+  (forall n2 this so eo r, 0 < n2 <= 255 -> find n2 fs = Some this -> lp_name this = nm ->
+     lock_limits so eo = Ok r -> in_range k (effective_range this r) ->
+     lock_stmt false st n2 so eo = (st, Err locks_err_PERMISSION_DENIED)).
+Proof.
+  intros st fs H1 N1 S1 K1. destruct (invariant_all_histories ops) as [[Hnd Hsets] [Hd Ho]].
+  fold st in Hnd, Hsets, Hd, Ho. fold fs in Hnd, Hsets, Hd, Ho.
+  assert (Hheld : held fs nm n1 r1) by (exists e1; auto).
+  split; [|split].
+  - intros n2 e2 r2 H2 N2 S2 K2.
+    destruct (Z.eq_dec n2 n1) as [En|En]; [destruct (range_eqb r2 r1) eqn:Er|].
+    + apply range_eqb_eq in Er. auto.
+    + exfalso. apply (Hd nm n2 r2 n1 r1); [exists e2; auto | exact Hheld | | exists k; auto].
+      right. intro E. subst r2. rewrite (proj2 (range_eqb_eq r1 r1) eq_refl) in Er. discriminate.
+    + exfalso. apply (Hd nm n2 r2 n1 r1); [exists e2; auto | exact Hheld | left; exact En | exists k; auto].
+  - intros put n2 this pos p Hn Hne Hf Hnm Hm Hp Hk Hoa.
+    apply (getput_locked_record_fails put st n2 pos this p n1 e1 r1); try assumption; try congruence.
+  - intros n2 this so eo r Hn Hf Hnm Hl Hk.
+    apply (lock_overlap_denied st n2 so eo this r n1 r1 Hn Hf Hl).
+    + rewrite Hnm. exact Hheld.
+    + exists k. split; assumption.
 Qed.
